@@ -661,7 +661,7 @@ package zerolog
 //@ pool triggerWriterPool *bytes.Buffer emptybuf
 
 //@ func (*TriggerLevelWriter).trigger(w) err
-//@   props C15
+//@   props C15 C06
 //@   flag replay trigger_writer
 //@   arith int
 //@   flag noovf
@@ -698,7 +698,7 @@ package zerolog
 //@     invariant ncalls(LevelWriter.WriteLevel) == old(ncalls(LevelWriter.WriteLevel)) && ncalls(io.Writer.Write) == old(ncalls(io.Writer.Write)) ==> off(p) == off(content(w.buf))
 
 //@ func (*TriggerLevelWriter).WriteLevel(w, l, p) n, err
-//@   props C15
+//@   props C15 C06
 //@   arith int
 //@   flag noovf
 //@   flag guarded mu buf triggered
@@ -719,7 +719,7 @@ package zerolog
 //@   ensures !old(w.triggered) && l >= w.TriggerLevel && callres(TriggerLevelWriter.trigger, old(ncalls(TriggerLevelWriter.trigger)), 0) == nil && !implements(w.Writer, "LevelWriter") ==> ncalls(io.Writer.Write) > old(ncalls(io.Writer.Write)) && same(callarg(io.Writer.Write, ncalls(io.Writer.Write) - 1, 1), p) && n == callres(io.Writer.Write, ncalls(io.Writer.Write) - 1, 0) && err == callres(io.Writer.Write, ncalls(io.Writer.Write) - 1, 1)
 
 //@ func (*TriggerLevelWriter).Trigger(w) err
-//@   props C15
+//@   props C15 C06
 //@   flag replay trigger_writer
 //@   arith int
 //@   flag guarded mu buf triggered
@@ -728,7 +728,7 @@ package zerolog
 //@   ensures !held(w.mu) && w.triggered && ncalls(TriggerLevelWriter.trigger) == old(ncalls(TriggerLevelWriter.trigger)) + 1 && err == callres(TriggerLevelWriter.trigger, old(ncalls(TriggerLevelWriter.trigger)), 0)
 
 //@ func (*TriggerLevelWriter).Close(w) err
-//@   props C15
+//@   props C15 C06
 //@   flag replay trigger_writer
 //@   arith int
 //@   flag guarded mu buf triggered
